@@ -24,6 +24,7 @@ type libRec struct {
 	paths  map[int]string
 	n      int
 	hashOn bool
+	obs    map[int]*vx.ObsCounter // per path: observations of the ExecuteDuration metric of the open handle
 }
 
 func (r *libRec) path(p int) string {
@@ -109,7 +110,11 @@ func (r *libRec) flush(p int, w *vx.Writer) bool {
 }
 
 func (r *libRec) open(p int, mode, cache string, capacity uint64) *updog.Index {
-	idx, err := vx.Open(r.path(p), mode, cache, capacity)
+	if r.obs == nil {
+		r.obs = map[int]*vx.ObsCounter{}
+	}
+	r.obs[p] = &vx.ObsCounter{}
+	idx, err := vx.OpenObserved(r.path(p), mode, cache, capacity, r.obs[p])
 	r.out.Emit(map[string]any{"ev": "Open", "p": p, "mode": mode, "cache": cache, "ok": err == nil, "fh": r.fh(p)})
 	if err != nil {
 		return nil
@@ -118,6 +123,9 @@ func (r *libRec) open(p int, mode, cache string, capacity uint64) *updog.Index {
 }
 
 func (r *libRec) close(p int, idx *updog.Index) {
+	if o := r.obs[p]; o != nil {
+		r.out.Emit(map[string]any{"ev": "IndexMetrics", "p": p, "n": o.N.Load()})
+	}
 	idx.Close()
 	r.out.Emit(map[string]any{"ev": "Close", "p": p, "fh": r.fh(p)})
 }
@@ -207,6 +215,10 @@ func (g *exprGen) tree(depth, arity int) *vx.Expr {
 			op = "or"
 		}
 		k := 1 + g.rng.Intn(arity)
+		if g.rng.Intn(40) == 0 {
+			k = []int{8, 15, 16, 17, 31, 32, 33, 64}[g.rng.Intn(8)] // operand counts around powers of two
+			depth = 1
+		}
 		e = &vx.Expr{Op: op}
 		for i := 0; i < k; i++ {
 			if i > 0 && g.rng.Intn(6) == 0 {
@@ -345,6 +357,19 @@ func (r *libRec) scenarioSmall(i int) {
 				gb = gb[:6]
 			}
 			r.exec(1, idx, vx.Query{E: e, GB: gb})
+		}
+		// systematic operand counts 1..40 (first round only)
+		for k := 1; round == 0 && k <= 40; k++ {
+			e := &vx.Expr{Op: []string{"or", "and"}[k%2]}
+			for j := 0; j < k; j++ {
+				l := leaves[(j*7+k)%len(leaves)]
+				x := &vx.Expr{Op: "eq", Col: l[0], Val: l[1]}
+				if k%2 == 1 && j%2 == 1 {
+					x = &vx.Expr{Op: "not", E: x}
+				}
+				e.Es = append(e.Es, x)
+			}
+			r.exec(1, idx, vx.Query{E: e})
 		}
 		// count(col=v) for every value of every column through a group-by on a tautology
 		for c := 1; c <= ncols; c++ {
